@@ -275,7 +275,12 @@ def resolve_text(t, name, depth=0):
         e = b[1]
         if e is None:
             return "?uninit"
-        # &self.field  /  self.field.to_owned()
+        # `let x = &self.x;` / `let x = self.x;` names the same thing as the destructuring `let Self { x, .. } = self;`
+        cur = e
+        while isinstance(cur, dict) and (cur.get("k") == "Ref" or (cur.get("k") == "Unary" and cur.get("op") == "*")):
+            cur = cur["expr"]
+        if isinstance(cur, dict) and cur.get("k") == "Field" and ident_of(cur["base"]) == "self" and depth == 0:
+            return "self.%s" % cur["member"]
         txt = unparse(e)
         return "expr:%s" % txt
     if b[0] == "variant-payload":
